@@ -739,7 +739,7 @@ reports it (`mkfile`, `created p` at time 900 — e.g. the symbol is downloaded 
 kept) is the result of **neither** sequential order: reported-then-pass keeps `p` (most recently used) and
 removes `a`; pass-then-reported ends with `p` on disk and recorded. (Confinement, "selected by the pass" and
 bookkeeping = disk still hold, in accordance with the theorems above.) Reproduced on the real code by the
-harness (`passbegin` … `passstep`), candidate finding C15-race-recreated-file-deleted. -/
+harness (`passbegin` … `passstep`), known finding C15-race-recreated-file-deleted (KNOWN_FINDINGS.txt). -/
 theorem C15_conc_counterexample_lru :
     let mk := Op.mkfile ["root", "p"]
     let rep := Op.created ["root", "p"] 10 900
